@@ -134,6 +134,56 @@ func c06Operands(c *Ctx, p *Prog) {
 					}
 				}
 			}
+			// and there is no way round the loop: once the node is known to be an operator node, every successful
+			// return has passed the loop's header
+			var starts []*ssa.BasicBlock
+			for _, prm := range fn.Params {
+				if strings.HasSuffix(prm.Type().String(), "parse.FilterOp") {
+					starts = append(starts, fn.Blocks[0])
+				}
+			}
+			eachInstr(fn, func(b *ssa.BasicBlock, in ssa.Instruction) {
+				ta, ok := in.(*ssa.TypeAssert)
+				if !ok || !strings.HasSuffix(ta.AssertedType.String(), "parse.FilterOp") {
+					return
+				}
+				if !ta.CommaOk {
+					starts = append(starts, b)
+					return
+				}
+				for _, r := range *ta.Referrers() {
+					if ex, ok := r.(*ssa.Extract); ok && ex.Index == 1 {
+						for _, r2 := range *ex.Referrers() {
+							if ifi, ok := r2.(*ssa.If); ok {
+								starts = append(starts, ifi.Block().Succs[0])
+							}
+						}
+					}
+				}
+			})
+			bypass := ""
+			for _, st := range starts {
+				seen := map[*ssa.BasicBlock]bool{}
+				work := []*ssa.BasicBlock{st}
+				for len(work) > 0 && bypass == "" {
+					b := work[len(work)-1]
+					work = work[:len(work)-1]
+					if seen[b] || b == lp.Header {
+						continue
+					}
+					seen[b] = true
+					if ret, ok := b.Instrs[len(b.Instrs)-1].(*ssa.Return); ok && len(ret.Results) == 2 {
+						if k, ok := retVal(ret, 1).(*ssa.Const); ok && k.IsNil() {
+							if k0, ok := retVal(ret, 0).(*ssa.Const); !ok || !k0.IsNil() {
+								bypass = p.pos(ret.Pos())
+							}
+						}
+					}
+					work = append(work, b.Succs...)
+				}
+			}
+			c.Check(bypass == "", R, fmt.Sprintf("%s:no-way-round-the-operands#%d", fnName(fn), n), p.pos(fn.Pos()), "an operator node is compiled only through the loop over its operands",
+				"an AND/OR/NOT node can be compiled successfully (return near "+bypass+") without its operands being compiled one by one: whatever that shortcut looks at, the operands it did not look at (a regular expression among literals, a different key, a nested expression) are lost from the filter")
 			c.Check(skipAt == "", R, fmt.Sprintf("%s:every-operand-compiled#%d", fnName(fn), n), p.pos(fn.Pos()), "every sub-expression is compiled into the operator's operand list",
 				"a sub-expression of an AND/OR node can be left out of the compiled operand list (the loop continues near "+skipAt+" without compiling it): dropping '*' is harmless under AND but wrong under OR — x OR * must match everything, * OR * becomes the empty OR (false), and -(x OR *) keeps measurements")
 		}
